@@ -169,3 +169,28 @@ stmt_contract(f"{C}::Calibrator.calibrate",
                        "lambda j: self.losses_samp[i] <= self.losses_samp[j]), "
                        "converged == (np_round(self.losses_samp[i], self.convergence_precision) == 0)))"],
               props=["C14"])
+
+# ---- constructor: establishes the history invariant --------------------------------------------------------------
+contract(f"{C}::Calibrator._validate_convergence_precision", params={"convergence_precision": "int"}, returns="int",
+         raises=[{"exc": "ValueError", "when": "not (convergence_precision >= 0)"}],
+         ensures=["result == convergence_precision"], modifies=[], props=["C02", "C14"])
+
+contract(f"{C}::Calibrator.__init__",
+         params={"loss_function": "opaque:BaseLoss", "real_data": "arr2[real]", "model": "opaque",
+                 "parameters_bounds": "seq[seq[real]]", "parameters_precision": "seq[real]", "ensemble_size": "int",
+                 "samplers": "opt[seq[opaque:BaseSampler]]", "scheduler": "opt[opaque:BaseScheduler]",
+                 "sim_length": "opt[int]", "convergence_precision": "opt[int]", "verbose": "bool",
+                 "saving_folder": "opt[str]", "random_state": "opt[int]", "n_jobs": "opt[int]"},
+         requires=["ensemble_size >= 1", "real_data.shape[0] >= 1 and real_data.shape[1] >= 1",
+                   "implies(sim_length is not None, sim_length >= 1)",
+                   "implies(samplers is not None, len(samplers) >= 1)",
+                   "implies(scheduler is not None, len(scheduler.samplers) >= 1)"],
+         may_raise=["SearchSpaceError", "ValueError"], props=["C02", "C18", "C09"],
+         # (the class invariant - aligned empty history, table covering the scheduler's samplers - is an obligation
+         #  at every normal exit of the constructor)
+         ensures=["self.n_sampled_params == 0 and self.current_batch_index == 0",
+                  "self.ensemble_size == ensemble_size and self.verbose == verbose",
+                  "implies(sim_length is None, self.N == real_data.shape[0])",
+                  "implies(sim_length is not None, self.N == sim_length)", "self.D == real_data.shape[1]",
+                  "implies(scheduler is not None and samplers is None, self.scheduler is scheduler)"],
+         modifies=["self.*"])
